@@ -22,7 +22,8 @@ pub fn eligible(env: &Env, ty: &Ty) -> bool {
 			_ => false,
 		}
 	}
-	plain(env, ty, 0) && crate::container::min_width(env, ty, 0) >= 1 && !crate::container::has_zero_width_elements(env, ty, 0)
+	// (apache-avro holds names to the specification's ASCII grammar)
+	!ast::has_exotic_names(ty) && plain(env, ty, 0) && crate::container::min_width(env, ty, 0) >= 1 && !crate::container::has_zero_width_elements(env, ty, 0)
 }
 
 pub fn to_value(env: &Env, ty: &Ty, v: &Val) -> Option<Value> {
